@@ -9,7 +9,7 @@
    by (walk, class)), C16_real_cache_transparent, C16_test_agrees_with_membership (T2-translated _field_is_instance),
    C16_user_global_never_shadows_builtin (T2-translated gate). *)
 From Verif Require Import Str Lookup LookupThm LookupSortThm LookupEnv LookupEnvThm Gen_Lookup LookupInst LookupInstThm LookupComposeThm
-  Gen_Pin_c16_loader Gen_Pin_c16_env.
+  Gen_Pin_c16_loader Gen_Pin_c16_env Gen_Pin_c16_wiring.
 From Coq Require Import Permutation.
 Import ListNotations.
 Open Scope N_scope.
@@ -21,6 +21,11 @@ Open Scope N_scope.
 Example C16_loader_shape_pinned : pin_c16_loader_ok = true.
 Proof. reflexivity. Qed.
 Example C16_env_shape_pinned : pin_c16_env_ok = true.
+Proof. reflexivity. Qed.
+(* the wiring: CodeGenerator.__init__ (templates_dir / search_policy / package plumbing into DSDLTemplateLoader and the environment
+   builder), DSDLCodeGenerator.__init__ (FIND_FIRST, registration of the DSDL tests), generate_all, _generate_type (the NAME given
+   to get_template), _create_all_dsdl_tests; tied dynamically by the end-to-end stratum of the check (real generate_all) *)
+Example C16_wiring_shape_pinned : pin_c16_wiring_ok = true.
 Proof. reflexivity. Qed.
 
 (* ---------------------------------------------------------------------------------------------------------------
@@ -68,6 +73,30 @@ Theorem C16_class_names_indexed : class_names_index_ok = true.
 Proof. exact class_names_index_true. Qed.
 Print Assumptions C16_class_names_indexed.
 
+(* (A5''') the chain ENDS AT pydsdl.Any (property text).  The code walks on to the bases of Any (abc.ABC) unless the walk stops at Any
+   -- a fact regenerated from /repo (g_chain_ends_at_any; design_notes/C16_chain_ends_at_any_fix.patch).  As long as it does not,
+   a user ABC.j2 is chosen and rendered for every type (finding F-LOOKUP-CHAIN-PAST-ANY): *)
+Theorem C16_chain_past_any_refuted : g_chain_ends_at_any = false ->
+  chain_end_ok = false /\
+  exists abc, p_name abc = [65; 66; 67] /\
+    p_rendered_seq false FIND_FIRST (Some [[p_exact_name abc]]) None [g_cls_StructureType] = [Rendered (OUserDir 0) (p_exact_name abc)] /\
+    p_spec_rendered FIND_FIRST (Some [[p_exact_name abc]]) None g_cls_StructureType = NoTemplate /\
+    isinst p_bases p_fuel abc g_cls_Any = false.
+Proof. exact chain_past_any_refuted. Qed.
+Print Assumptions C16_chain_past_any_refuted.
+
+(* ... and once it does, the chain of every class below Any ends at Any (so all theorems above speak about chains ending at Any) *)
+Theorem C16_chain_ends_at_any : g_chain_ends_at_any = true ->
+  chain_end_ok = true /\
+  (forall pol dirs pkg c, p_spec_rendered pol dirs pkg c = p_spec_rendered_code pol dirs pkg c) /\
+  (forall pol dirs pkg c, In c p_ids -> p_flatb pol dirs pkg = true -> p_shadow_freeb pol dirs pkg c = true ->
+     p_rendered_seq false pol dirs pkg [c] = [p_spec_rendered pol dirs pkg c]).
+Proof.
+  intros H. split; [exact (chain_ends_at_any_fixed H)|]. split; [exact (p_spec_rendered_agree H)|].
+  intros pol dirs pkg c. exact (p_rendered_property pol dirs pkg c H).
+Qed.
+Print Assumptions C16_chain_ends_at_any.
+
 (* (A6) directory enumeration order.  list_templates of the bundled loaders is modelled (sorted, de-duplicated): the listing handed
    to type_to_template depends only on the SET of names the directory walks produced -- any order, any repetition, duplicated stems
    included (no NoDup premise); hence so does every lookup sequence, with the names of all user search paths taken together *)
@@ -105,31 +134,18 @@ Print Assumptions C16_builtin_is_fallback.
 (* (A9) THE COMPOSITION: which FILE is rendered.  _generate_type hands type_to_template(type(T)).name to get_source.
    Property's reading: the most specific class k of T's chain for which a file named exactly <k><suffix> exists in ANY root of the
    loader chain (user search paths in order, then the package); rendered = that file in the FIRST root that has it
-   (p_spec_rendered).  True of the code when (1) no indexed template lives in a sub-directory and (2) no built-in template of a
+   (p_spec_rendered over the chain that ends at Any; p_spec_rendered_code over the chain the code walks -- the two are equal once
+   the walk stops at Any, C16_chain_ends_at_any below).  True of the code when (1) no indexed template lives in a sub-directory and (2) no built-in template of a
    nearer class is passed over for a user template of a more general class: *)
 Theorem C16_rendered_file_partial :
   forall pol dirs pkg c, In c p_ids ->
     p_flatb pol dirs pkg = true -> p_shadow_freeb pol dirs pkg c = true ->
-    p_rendered_seq false pol dirs pkg [c] = [p_spec_rendered pol dirs pkg c].
+    p_rendered_seq false pol dirs pkg [c] = [p_spec_rendered_code pol dirs pkg c].
 Proof. exact p_rendered_partial. Qed.
 Print Assumptions C16_rendered_file_partial.
 
-(* (1) refuted (finding F-LOOKUP-SUBDIR-NAME) AS LONG AS type_to_template indexes the templates of sub-directories -- a fact
-   regenerated from /repo (g_index_top_level_only = false; p_flatb is `g_index_top_level_only || ...`): user dir
-   {sub/StructureType.j2, CompositeType.j2}, package {StructureType.j2}: type_to_template chooses sub/StructureType.j2, .name drops
-   the directory; FIND_ALL renders the PACKAGE's StructureType.j2, FIND_FIRST raises TemplateNotFound; the property designates the
-   user's CompositeType.j2 *)
-Theorem C16_rendered_file_refuted_subdir : g_index_top_level_only = false ->
-  p_lookup_seq false FIND_ALL (Some [[f_sub_struct; f_comp]]) (Some [f_struct]) [g_cls_StructureType] = [Some f_sub_struct] /\
-  p_rendered_seq false FIND_ALL (Some [[f_sub_struct; f_comp]]) (Some [f_struct]) [g_cls_StructureType] = [Rendered OPkg f_struct] /\
-  p_rendered_seq false FIND_FIRST (Some [[f_sub_struct; f_comp]]) (Some [f_struct]) [g_cls_StructureType] = [NotFound f_struct] /\
-  p_spec_rendered FIND_FIRST (Some [[f_sub_struct; f_comp]]) (Some [f_struct]) g_cls_StructureType = Rendered (OUserDir 0) f_comp /\
-  p_flatb FIND_FIRST (Some [[f_sub_struct; f_comp]]) (Some [f_struct]) = false.
-Proof. exact subdir_name_refuted. Qed.
-Print Assumptions C16_rendered_file_refuted_subdir.
-
-(* ... and once only top-level templates are indexed (design_notes/C16_subdir_name_fix.patch) condition (1) of the partial theorem
-   holds for EVERY input (p_flatb = true by definition) and the witness renders what the property designates *)
+(* (1) since fix af716bd only top-level templates are indexed (regenerated fact g_index_top_level_only): condition (1) of the partial
+   theorem holds for EVERY input (p_flatb = true by definition) and the witness renders what the property designates *)
 Theorem C16_rendered_file_subdir_fixed : g_index_top_level_only = true ->
   (forall pol dirs pkg, p_flatb pol dirs pkg = true) /\
   p_lookup_seq false FIND_FIRST (Some [[f_sub_struct; f_comp]]) (Some [f_struct]) [g_cls_StructureType] = [Some f_comp] /\
